@@ -1,12 +1,46 @@
 #!/usr/bin/env python3
 """C01 - OpenAPI operations are exactly the non-hidden annotated routes."""
 import os
+import re
 import sys
 sys.path.insert(0, os.path.dirname(os.path.abspath(__file__)))
 import speccheck
 
 SPEC = {"eqb": "op_eqb_c01", "extra_imports": "",
         "oracle": "(fun p o => match o with Some d => prop_C01 p d | None => true end)"}
+
+def meth(name, verb, route, hidden=False, deprecated=False):
+    return {"name": name, "verb": verb, "route": route, "hidden": hidden, "deprecated": deprecated, "security": [],
+            "params": [], "ret": None, "errtype": "error", "response": None, "errors": [], "descr": "", "file": 0}
+
+
+def same_named_controllers(rng):
+    """F13 (known finding): two controllers with the same struct name in two packages."""
+    return [{
+        "config": {"schemes": ["sec1"], "default_security": None, "enforce": False, "engine": "gin", "title": "API",
+                   "version": "1", "base_url": "https://a.example.com"},
+        "controllers": [
+            {"name": "ItemsCtl", "pkg": "ctl", "tag": "Items", "route": "/items", "security": [], "descr": "",
+             "methods": [meth("ListItems", "GET", "/list")]},
+            {"name": "ItemsCtl", "pkg": "ctlb", "tag": "Other", "route": "/other", "security": [], "descr": "",
+             "methods": [meth("DeepOther", "GET", "/deep")]}],
+        "types": ["Item"]}]
+
+
+def known_f13(project, obs):
+    import common
+    names = [c["name"] for c in project["controllers"]]
+    if len(set(names)) == len(names):
+        return None
+    for f in common.known_for("C01"):
+        if f.get("match", {}).get("kind") == "same-named-controllers-in-two-packages":
+            leak = re.findall(r'operations "([^"]+)" and "([^"]+)" have the same operation id', obs["out"])
+            return (f, "controllers %s share a struct name: each receives the other's methods (%s)" % (
+                sorted(set(n for n in names if names.count(n) > 1)),
+                ("spec refused: %s and %s carry one operationId" % leak[0]) if leak else
+                sorted(set((o["path"], o["tags"][0] if o["tags"] else "") for o in (obs["ops"] or [])))))
+    return None
+
 
 if __name__ == "__main__":
     res = speccheck.run(
@@ -17,5 +51,5 @@ if __name__ == "__main__":
              "non-trivial = at least one operation emitted; distinct = distinct abstract projects",
         assumptions=["go/packages discovery and kin-openapi/libopenapi rendering are exercised, not modelled",
                      "controller struct names are unique within a generated project (see F13)"],
-        nontrivial=lambda p, ops: bool(ops))
+        nontrivial=lambda p, ops: bool(ops), extra_cases=same_named_controllers, known_matcher=known_f13)
     sys.exit(res.finish())
